@@ -273,7 +273,7 @@ func boundaryFamily(budget time.Duration) mc.Family {
 		Name:   "integer-boundaries",
 		Items:  nb * (len(bin) + 1),
 		Budget: budget,
-		Rule: fmt.Sprintf("every binary arithmetic, comparison and bitwise operator the library has (%v) applied to every ordered pair of %d boundary integers (+-(2^k-1), +-2^k, +-(2^k+1) for k in {0,1,2,7,8,15,16,24,31,32,33,48,52,53,62}, the neighbourhood of sqrt(2^63) and of 2^32, min/max int, small values), and every unary numeric operator (%v) to each; item = (first operand, operator), Choose = second operand; non-trivial = the reference defines the result", bin, nb, un),
+		Rule:   fmt.Sprintf("every binary arithmetic, comparison and bitwise operator the library has (%v) applied to every ordered pair of %d boundary integers (+-(2^k-1), +-2^k, +-(2^k+1) for k in {0,1,2,7,8,15,16,24,31,32,33,48,52,53,62}, the neighbourhood of sqrt(2^63) and of 2^32, min/max int, small values), and every unary numeric operator (%v) to each; item = (first operand, operator), Choose = second operand; non-trivial = the reference defines the result", bin, nb, un),
 		Body: func(c *mc.Ctx, item int) mc.Verdict {
 			a := boundaryInts[item%nb]
 			oi := item / nb
